@@ -14,9 +14,13 @@ func init() {
 		NotDecided: "the counts floor(N/k)/ceil(N/k) themselves (they follow arithmetically from 3-4 between membership changes); the window between choosing a backend and writing to it while it is being removed."})
 }
 
-const rrLock = "RoundRobinBackend.Mutex"
+// rrLock: the pool's mutex - the one field of RoundRobinBackend whose type is sync.Mutex or sync.RWMutex (set by runC05)
+var rrLock = "RoundRobinBackend.Mutex"
 
 func runC05(c *Ctx) {
+	rrLock = c.w.mutexClass("RoundRobinBackend", "RoundRobinBackend.Mutex")
+	// with a read/write lock the mutating operations need the write lock (shared with C09)
+	ruleReadLockWrites(c, "lockset")
 	c05Lockset(c)
 	c05Paired(c)
 	c05Cursor(c)
